@@ -1020,6 +1020,16 @@ class NumpyModel:
             if idx is not None and idx.nonzero_of is not None and idx.nonzero_of.dtype == 'bool':
                 idx = idx.nonzero_of
         name = tv.id if isinstance(tv, ast.Name) else None
+        if base.ty == 'ndarray' and not aug and value is not None and has_const(value) and cval(value) is False and base.axes and base.axes[0] == 'frame' \
+                and (base.cmp is not None or base.bin is not None):
+            # mask[-1] = False / mask[-1:] = False: the last frame can no longer be selected
+            first = idx.elts[0] if (idx is not None and idx.ty == 'tuple' and idx.elts) else idx
+            rest_full = not (idx is not None and idx.ty == 'tuple' and idx.elts) or all(x.ty == 'slice' and x.lo is None and x.hi is None and x.step is None for x in idx.elts[1:])
+            last = first is not None and ((has_const(first) and cval(first) == -1) or
+                                          (first.ty == 'slice' and first.lo is not None and has_const(first.lo) and cval(first.lo) == -1 and first.hi is None and first.step is None))
+            if last and rest_full:
+                self.rebind(interp, st, frame, tv, base.w(nolast=True))
+                return
         if base.ty == 'ndarray':
             # closer idiom: x[x == 1] = 0 / x[x >= 1] = 0 on a closed wrap
             if not aug and base.geo == ('FRAC', 'C') and closes_wrap(idx.cmp, interp.sx(tv)) and is_zero_fill(value):
